@@ -86,13 +86,31 @@ def inputs(ctx):
     # spans that only REFER to styles (DFXP style="id", lists of ids, a style built on another;
     # SAMI class="name" with the rule in the style sheet)
     for k, nodes in enumerate(base if not ctx.quick else base[::4]):
-        for src, modes in (("DFXP", ("single", "list", "chain")), ("SAMI", ("single",))):
+        for src, modes in (("DFXP", ("single", "list", "chain", "chain-rev")), ("SAMI", ("single", "id"))):
             for mode in modes:
                 for r in (["DFXP"], ["SAMI"], ["WebVTT"]):
                     if ctx.quick and (k + len(mode) + len(r[0])) % 3:
                         continue
                     ins.append({"id": "rf%d-%s-%s-%s" % (k, src, mode, r[0]), "k": "spans", "nodes": nodes, "route": r,
                                 "src": src, "refs": mode})
+    # lines that hold nothing but a span that writes nothing in the target format (a colour class, a span
+    # without properties), between two breaks or at the start: the line must not become a blank line
+    # that ends the cue block (WebVTT, SRT-like block formats), and the italics after it must survive
+    def T(x):
+        return {"t": "T", "s": [ord(c) for c in x]}
+    BR = {"t": "BR"}
+    for cls in (True, False):
+        c1, c0 = {"t": "S", "on": True, "st": [], "cls": cls}, {"t": "S", "on": False, "st": [], "cls": cls}
+        i1, i0 = {"t": "S", "on": True, "st": ["i"]}, {"t": "S", "on": False, "st": ["i"]}
+        shapes = [[c1, T("NARRATOR"), BR, c0, BR, i1, T("far away"), i0],
+                  [c1, BR, T("late"), c0, T(" "), i1, T("it"), i0],
+                  [T("one"), BR, c1, BR, T("two"), c0, BR, i1, T("three"), i0],
+                  [T("one"), BR, c1, c0, BR, i1, T("two"), i0],
+                  [i1, T("a"), i0, BR, c1, c0, BR, T("b")],
+                  [T("one"), BR, i1, i0, BR, T("two")]]
+        for k, nodes in enumerate(shapes):
+            for r in (["WebVTT"], ["DFXP"], ["SAMI"], ["DFXP", "WebVTT"], ["SAMI", "WebVTT"]):
+                ins.append({"id": "bl%d%s-%s" % (k, "c" if cls else "n", "-".join(r)), "k": "spans", "nodes": nodes, "route": r})
     # a caption that is italic as a whole through the style class it names, in a document that also has a
     # style called "p" (DFXP writers)
     plain = [c["nodes"] for c in ctx._cases if not any(n["t"] == "S" for n in c["nodes"])]
@@ -179,6 +197,9 @@ def _ref_doc_from_nodes(nodes, kind, mode):
             elif kind == "DFXP":
                 ref = " ".join("s_" + x for x in key) if mode == "list" else "s_" + key
                 out.append('<span style="%s">' % ref)
+            elif mode == "id":
+                # the rule hangs on the element's id; its classes say nothing about italics / bold / underline
+                out.append('<span class="tint loud" id="s_%s">' % key)
             else:
                 out.append('<span class="s_%s">' % key)
         else:
@@ -187,20 +208,25 @@ def _ref_doc_from_nodes(nodes, kind, mode):
     if kind == "DFXP":
         defs = []
         need = set(combos)
-        if mode in ("list", "chain"):
+        if mode in ("list", "chain", "chain-rev"):
             need |= {x for c in combos for x in c}
-        for c in sorted(need):
-            if mode == "chain" and len(c) > 1:
-                # the first property comes from the style referred to, the rest are the style's own
-                own = " ".join('%s="%s"' % COMBO[x][:2] for x in c[1:])
-                defs.append('<style xml:id="s_%s" style="s_%s" %s/>' % (c, c[0], own))
+        # chain-rev: the same styles, each defined BEFORE the one it builds on (references may point forward)
+        for c in sorted(need, reverse=(mode == "chain-rev")):
+            if mode in ("chain", "chain-rev") and len(c) > 1:
+                # one property comes from the style referred to (italics when there are any: the one
+                # every target format carries), the rest are the style's own
+                ref = "i" if "i" in c else c[0]
+                own = " ".join('%s="%s"' % COMBO[x][:2] for x in c if x != ref)
+                defs.append('<style xml:id="s_%s" style="s_%s" %s/>' % (c, ref, own))
             elif mode == "list" and len(c) > 1:
                 continue
             else:
                 defs.append('<style xml:id="s_%s" %s/>' % (c, " ".join('%s="%s"' % COMBO[x][:2] for x in c)))
         return render.dfxp_doc([("en-US", [('begin="00:00:01.000" end="00:00:02.000"', body)])],
                                head="<styling>%s</styling>" % "".join(defs))
-    css = "\n".join(".s_%s {%s}" % (c, " ".join("%s: %s;" % COMBO[x][2:] for x in c)) for c in combos)
+    css = "\n".join("%ss_%s {%s}" % ("#" if mode == "id" else ".", c, " ".join("%s: %s;" % COMBO[x][2:] for x in c)) for c in combos)
+    if mode == "id":
+        css += "\n.tint {color: yellow;}\n.loud {font-size: 120%;}"
     doc = render.sami_doc([("ENCC", "en-US")], [("1000", [("ENCC", body)]), ("2000", [("ENCC", "&nbsp;")])])
     return doc.replace("-->", css + "\n-->", 1)
 
@@ -472,7 +498,9 @@ def signature(inp, rec, clause):
     if "@" in clause:
         sig["route"] = clause.split("@")[1]
     if inp.get("refs"):
-        sig["refs"] = inp["src"] + ":" + inp["refs"]
+        sig["refs"] = inp["src"] + ":" + inp["refs"].replace("chain-rev", "chain")
+        if inp["refs"] == "chain-rev":
+            sig["forward_refs"] = True
         sig["multi"] = any(len(n["st"]) > 1 for n in inp["nodes"] if n["t"] == "S")
     return sig
 
